@@ -126,7 +126,8 @@ def run(ctx):
     cases, per_class = modelgen.build_cases(rng, ctx.tier)
     env_cases = modelgen.envelope_cases()
     inv_cases = modelgen.invariant_cases()
-    allc = cases + env_cases + inv_cases
+    from vf import spec_examples
+    allc = cases + env_cases + inv_cases + spec_examples.cases()
     mine = [c for c in allc if ctx.mine()]
     ctx.extra["model_classes_discovered"] = len(per_class)
     ctx.extra["cases_per_class"] = {k.split(":")[1] + "@" + k.split(":")[0].split(".")[-2]: v for k, v in per_class.items()}
@@ -198,6 +199,11 @@ def run(ctx):
             if okp != okf:
                 ctx.violation("acceptance_differs", f"{cls}: pydantic {'accepts' if okp else 'rejects'}, fallback "
                               f"{'accepts' if okf else 'rejects'}: {rp.get('err') or rf.get('err')}", case)
+            elif c["kind"] == "spec_example":
+                # not an object derived from the model's own declaration but one the specification shows
+                ctx.violation(f"spec_example_rejected:{cls}@{c['cls'].split(':')[0].split('.')[-2]}:{c['tag']}",
+                              f"{c['cls']}: example #{c['example']} from the 2025-06-18 specification {str(c['wire'])[:160]} is "
+                              f"rejected by both backends: {str(rp.get('err'))[:200]}", case)
             else:
                 ctx.count("generated_object_rejected_by_both")
             ctx.record(case, shape=[okp, okf], cls="model_reject")
@@ -232,7 +238,7 @@ def replay(ctx, case):
     import vf.props.c09 as me
     orig = me.run_workers
     bc, ec, ic = modelgen.build_cases, modelgen.envelope_cases, modelgen.invariant_cases
-    modelgen.build_cases = lambda r, t: ([case] if case["kind"] == "model" else [], {})
+    modelgen.build_cases = lambda r, t: ([case] if case["kind"] in ("model", "spec_example") else [], {})
     modelgen.envelope_cases = lambda: [case] if case["kind"] == "envelope" else []
     modelgen.invariant_cases = lambda: [case] if case["kind"] == "invariant" else []
     try:
